@@ -50,6 +50,12 @@ func open(ctx context.Context, ds datastore.Datastore) (*Store, error) {
 	if err != nil {
 		return nil, fmt.Errorf("continuing deletion: %w", err)
 	}
+	// DeleteAll records its tombstone inside the certstore namespace, so an interrupted
+	// wipe must also be detected (and completed) there.
+	err = maybeContinueDelete(ctx, cs.ds)
+	if err != nil {
+		return nil, fmt.Errorf("continuing deletion: %w", err)
+	}
 
 	latestInstance, err := cs.readInstanceNumber(ctx, certStoreLatestKey)
 	if errors.Is(err, datastore.ErrNotFound) {
